@@ -230,7 +230,16 @@ int main(int argc, char** argv) {
   fc.count = (uint64_t)rounds * 9;
   fc.chunk = 1;
   fc.group = "TC";
-  fc.rule = "scenario C under TSan (built with SONIC_LOCKED_ALLOCATOR only): 2-4 threads x 50 Malloc/Realloc on one shared pool with a 64-byte chunk capacity, in 3 pool configurations (default; adaptive chunk policy; user buffer without base allocator, overflowing); blocks must also be disjoint and intact";
+  fc.rule = "scenario C under TSan (built with SONIC_LOCKED_ALLOCATOR only): 2-4 threads x 50 Malloc / Realloc / Realloc(null) on one shared pool with a 64-byte chunk capacity, in 3 pool configurations (default; adaptive chunk policy; user buffer without base allocator, overflowing); blocks must also be disjoint and intact";
+
+  // Quote's source range under TSan: the serialised string is a window into an arena whose NEXT bytes another thread is
+  // writing (next record of a log buffer, neighbouring field). Reading one byte beyond the string is a data race.
+  vr::Family fq;
+  fq.name = "TQ_quote_next_to_foreign_writes";
+  fq.count = (uint64_t)100 * 4;
+  fq.chunk = 4;
+  fq.group = "TQ";
+  fq.rule = "thread A serialises a document holding a constant string of n bytes (n = 1..100) that is a window into an arena at 4 alignments, thread B concurrently overwrites the 64 bytes that follow the window: no report, output correct";
 
   // the on-demand entry points alone (run as a job of C10: a lookup's result must not depend on what other threads look up)
   vr::Family fao;
@@ -243,6 +252,37 @@ int main(int argc, char** argv) {
   vr::CheckFn check = [&](const vr::Family& f, uint64_t idx, vr::Ctx& ctx) {
     ctx.eval();
     ctx.nontriv();
+    if (f.name[1] == 'Q') {
+      const unsigned n = (unsigned)(idx % 100) + 1, al = (unsigned)(idx / 100);
+      static const unsigned offs[4] = {0, 1, 17, 33};
+      if (ctx.want_sample) ctx.sample("n=" + std::to_string(n) + " offset " + std::to_string(offs[al]));
+      alignas(64) static char arena[1024];
+      char* win = arena + 256 + offs[al];
+      for (unsigned i = 0; i < n; i++) win[i] = (char)('a' + i % 26);
+      if (n > 2) win[n / 2] = '"';
+      std::string expect = "[\"";
+      for (unsigned i = 0; i < n; i++) expect += win[i] == '"' ? std::string("\\\"") : std::string(1, win[i]);
+      expect += "\"]";
+      Barrier bar(2);
+      std::string got;
+      std::thread a([&] {
+        Document d;
+        d.SetArray();
+        d.PushBack(Node(StringView(win, n)), d.GetAllocator());
+        bar.wait();
+        for (int r = 0; r < 100; r++) got = d.Dump();
+      });
+      std::thread b([&] {
+        bar.wait();
+        // byte stores (a vectorised memset would be a 16/32-byte access, which ThreadSanitizer does not track)
+        for (int r = 0; r < 200; r++)
+          for (unsigned i = 0; i < 64; i++) ((volatile char*)win)[n + i] = (char)('A' + (r + i) % 20);
+      });
+      a.join();
+      b.join();
+      if (got != expect) ctx.violation("observation", "tsan_observation_differs", "Q", "Dump gave %s expected %s", got.substr(0, 80).c_str(), expect.substr(0, 80).c_str());
+      return;
+    }
     if (f.name[1] == 'A') {
       int o1 = (int)(idx % NA), o2 = (int)((idx / NA) % NA);
       if (f.name[2] == 'o') {
@@ -318,7 +358,8 @@ int main(int argc, char** argv) {
           uint8_t pat = (uint8_t)(1 + 60 * t);
           for (int k = 0; k < 50; k++) {
             size_t n = (k % 3 == 0) ? 24 : (k % 3 == 1 ? 48 : 8);
-            char* p = (char*)pool.Malloc(n);
+            // every 5th allocation goes through Realloc(null, 0, n), as the first growth of an empty container does
+            char* p = k % 5 == 2 ? (char*)pool.Realloc(nullptr, 0, n) : (char*)pool.Malloc(n);
             std::memset(p, pat, n);
             if (k % 4 == 1) {
               size_t nn = k % 8 == 1 ? 40 : 200;
@@ -371,11 +412,12 @@ int main(int argc, char** argv) {
 #ifdef SONIC_LOCKED_ALLOCATOR
   fams = {fc};
 #else
-  fams = {fa, fb, fbm};
+  fams = {fa, fb, fbm, fq};
   if (args.get("only") == fao.name) fams = {fao};
+  if (args.get("only") == fq.name) fams = {fq};
 #endif
   if (args.replay) {
-    std::vector<vr::Family> all = {fa, fb, fbm, fc, fao};
+    std::vector<vr::Family> all = {fa, fb, fbm, fc, fao, fq};
     return R.replay_one(all, check);
   }
   for (auto& f : fams) R.run(f, check);
